@@ -458,7 +458,7 @@ struct DomExec {
         bool armed = false;
         if (op.fault == FT_STRBUF_FAIL && s.flavour != FL_POOL) { simmem::arm_fail(s.flavour == FL_SIM ? simmem::SIMALLOC : simmem::LIBC, simmem::FK_MALLOC, 0); armed = true; }
         if (op.fault == FT_NODESTACK_FAIL) { simmem::arm_fail(simmem::LIBC, simmem::FK_REALLOC_NULL, 0); armed = true; }
-        d.Parse(tb.data, text.size());
+        if ((cur_op + (int)text.size()) & 1) d.Parse(tb.data, text.size()); else d.Parse(StringView(tb.data, text.size()));   // both overloads
         bool fired = armed && simmem::disarm();
         tb.release();
         s.schema_live = 0;
@@ -477,7 +477,7 @@ struct DomExec {
         auto ps = pspec_decode(op.S(2));
         auto path = pspec_resolve(ps, ref.ok ? ref.v : JVal::null());
         JsonPointer jp = to_json_pointer(path);
-        d.ParseOnDemand(tb.data, text.size(), jp);
+        if ((cur_op + (int)text.size()) & 1) d.ParseOnDemand(tb.data, text.size(), jp); else d.ParseOnDemand(StringView(tb.data, text.size()), jp);
         tb.release();
         s.schema_live = 0;
         ob = "O" + std::to_string((int)d.GetParseError());
@@ -502,7 +502,7 @@ struct DomExec {
       bool armed = false;
       if (op.fault == FT_STRBUF_FAIL && s.flavour != FL_POOL) { simmem::arm_fail(s.flavour == FL_SIM ? simmem::SIMALLOC : simmem::LIBC, simmem::FK_MALLOC, 0); armed = true; }
       if (op.fault == FT_NODESTACK_FAIL) { simmem::arm_fail(simmem::LIBC, simmem::FK_REALLOC_NULL, 0); armed = true; }
-      d.ParseSchema(tb.data, text.size());
+      if ((cur_op + (int)text.size()) & 1) d.ParseSchema(tb.data, text.size()); else d.ParseSchema(StringView(tb.data, text.size()));
       bool fired = armed && simmem::disarm();
       tb.release();
       if (fired) {   // handled allocation failure: kErrorNoMem and the existing document untouched
@@ -541,6 +541,21 @@ struct DomExec {
       n = std::move(tmp);
       m = std::move(v);
       ob = "b"; return true;
+    }
+    if (k == "CtorAssign") {   // node constructors for every scalar C++ type, move-assigned into place, then compared with the scalar
+      int64_t x = op.A(2);
+      switch ((uint64_t)op.A(1) % 9) {
+        case 0: { int v = (int)x; n = N(v); m = JVal::sint(v); if (!(n == v) || (n != v) || n == (v ^ 1)) violate("model", site("scalar_eq"), "node built from int does not compare equal to it"); break; }
+        case 1: { unsigned v = (unsigned)x; n = N(v); m = JVal::uint(v); if (!(n == (uint32_t)v) || n == (uint32_t)(v + 1)) violate("model", site("scalar_eq"), "node built from unsigned does not compare equal to it"); break; }
+        case 2: { int64_t v = x; n = N(v); m = JVal::sint(v); if (!(n == v) || n == (int64_t)(v ^ 1)) violate("model", site("scalar_eq"), "node built from int64 does not compare equal to it"); break; }
+        case 3: { uint64_t v = (uint64_t)x; n = N(v); m = JVal::uint(v); if (!(n == v) || n == (uint64_t)(v ^ 1)) violate("model", site("scalar_eq"), "node built from uint64 does not compare equal to it"); break; }
+        case 4: { double v; uint64_t b = (uint64_t)x; if (((b >> 52) & 0x7ff) == 0x7ff) b &= ~(1ull << 62); memcpy(&v, &b, 8); n = N(v); m = JVal::real_bits(b); if (!(n == v)) violate("model", site("scalar_eq"), "node built from double does not compare equal to it"); break; }
+        case 5: { float v = (float)(x % 100000) / 8.0f; n = N(v); m = JVal::real((double)v); if (!(n == v)) violate("model", site("scalar_eq"), "node built from float does not compare equal to it"); break; }
+        case 6: { bool v = x & 1; n = N(v); m = JVal::boolean(v); if (!(n == v) || n == !v) violate("model", site("scalar_eq"), "node built from bool does not compare equal to it"); break; }
+        case 7: { n = N(kNull); m = JVal::null(); break; }
+        default: { n = N(kString); m = JVal::str(""); if (!(n == StringView(""))) violate("model", site("scalar_eq"), "empty string node does not compare equal to the empty view"); break; }
+      }
+      ob = "ca"; return true;
     }
     if (k == "SetNull") { n.SetNull(); m = JVal::null(); ob = "n"; return true; }
     if (k == "SetBool") { n.SetBool(op.A(1) & 1); m = JVal::boolean(op.A(1) & 1); ob = "b"; return true; }
